@@ -3,7 +3,7 @@ import ast
 import glob
 import os
 
-from .. import coqrun, py2gallina as pg, zoo
+from .. import coqrun, py2gallina as pg, symex as X, zoo
 from ..core import Corr, Untranslatable, Violation
 
 ID = "C18"
@@ -49,56 +49,111 @@ def _view(call, names, groups, path, what):
     return out
 
 
+def _view_v(args, data, groups, names, path, what):
+    """reshape arguments as vdim constructors: sizes of the input (by position), the group count, -1."""
+    if len(args) == 1 and args[0][0] in ("tuple", "list"):
+        args = args[0][1]
+    shp = ("attr", data, "shape")
+    if len(args) == 1 and args[0] in (shp, ("call", ("attr", data, "size"), (), ())):
+        return [VD[n] for n in names]  # reshape(input.shape): every size of the input, in order
+    out = []
+    for a in args:
+        if a == S(groups):
+            out.append("VGroups")
+        elif a == X.const(-1):
+            out.append("VRest")
+        elif a[0] == "sub" and a[1] == shp and X.is_const(a[2]) and type(a[2][1]) is int and 0 <= a[2][1] < len(names):
+            out.append(VD[names[a[2][1]]])
+        elif a[0] == "call" and a[1] == ("attr", data, "size") and len(a[2]) == 1 and X.is_const(a[2][0]) and 0 <= a[2][0][1] < len(names):
+            out.append(VD[names[a[2][0][1]]])
+        else:
+            out.append("VOther")
+    return out
+
+
+S = lambda n: ("sym", n)
+
+
+def _reshape(v, what, path):
+    if not (v[0] == "call" and v[1][0] == "attr" and v[1][2] in ("reshape", "view") and not v[3]):
+        _fail("%s: expected a reshape: %s" % (what, X.show(v)[:80]), None, path)
+    return v[1][1], v[2]
+
+
 def _norm_spec(tree, cls, groups, names, path):
-    fn = pg.find_def(tree, cls + ".norm", path)
-    body = [s for s in pg.strip_doc(fn.body)]
-    if ast.unparse(body[0]) != "%s = input_data.shape" % ", ".join(names):
-        _fail("%s.norm: expected `%s = input_data.shape`" % (cls, ", ".join(names)), body[0], path)
-    if not (isinstance(body[1], ast.Assign) and ast.unparse(body[1].targets[0]) == "input_data"):
-        _fail("%s.norm: expected the reshape of input_data" % cls, body[1], path)
-    view = _view(body[1].value, names, groups, path, cls + ".norm")
-    axes, keep = [], []
-    for st, nm in ((body[2], "mean"), (body[3], "std")):
-        v = st.value
-        if not (isinstance(st, ast.Assign) and ast.unparse(st.targets[0]) == nm and isinstance(v, ast.Call) and ast.unparse(v.func) == "input_data." + nm and len(v.args) == 1):
-            _fail("%s.norm: expected `%s = input_data.%s(axis, keepdim=...)`" % (cls, nm, nm), st, path)
-        try:
-            ax = ast.literal_eval(v.args[0])
-        except Exception:
-            _fail("%s.norm: reduction axis is not a literal" % cls, st, path)
-        axes.append(tuple(ax) if isinstance(ax, (tuple, list)) else (ax,))
-        kd = [k for k in v.keywords if k.arg == "keepdim"]
-        keep.append(bool(kd and ast.literal_eval(kd[0].value)))
-    if axes[0] != axes[1] or keep[0] != keep[1]:
-        _fail("%s.norm: mean and std are taken over different axes" % cls, fn, path)
-    if ast.unparse(body[4]) != "output = (input_data - mean) / std":
-        _fail("%s.norm: expected `output = (input_data - mean) / std`" % cls, body[4], path)
-    if not (isinstance(body[5], ast.Assign) and ast.unparse(body[5].targets[0]) == "output" and ast.unparse(body[5].value.func) == "output.reshape"):
-        _fail("%s.norm: expected the reshape back" % cls, body[5], path)
-    back = _view(body[5].value, names, groups, path, cls + ".norm")
-    if ast.unparse(body[6]) != "return (output, mean, std)":
-        _fail("%s.norm: expected `return output, mean, std`" % cls, body[6], path)
-    spec = "{| view := [%s]; reduce_axes := [%s]; keepdim := %s; back := [%s] |}" % ("; ".join(view), "; ".join("(%d)%%Z" % a for a in axes[0]), "true" if keep[0] else "false", "; ".join(back))
+    """norm returns (reshape-back((X - mean) / std), mean, std) with X a reshape of the input and mean / std reductions of X
+    over the same axes; unnorm returns reshape-back(X * std + mean); read off value trees (vlib/symex.py), so the names
+    of the locals, intermediates and the way the sizes are obtained do not matter."""
+    rank = len(names)
+    data = S("input_data")
+    attrs = {}
+    t, _n = X.run_function(tree, path, cls + ".norm", attrs=attrs)
+    t = X.prune_raises(X.drop_do(t))
+    if t is None or t[0] != "ret" or t[1][0] != "tuple" or len(t[1][1]) != 3:
+        _fail("%s.norm: does not return (output, mean, std)" % cls, None, path)
+    outv, mean, std = t[1][1]
+    inner, back_args = _reshape(outv, cls + ".norm output", path)
+    if not (inner[0] == "bin" and inner[1] == "/" and inner[3] == std and inner[2][0] == "bin" and inner[2][1] == "-" and inner[2][3] == mean):
+        _fail("%s.norm: output is not (X - mean) / std: %s" % (cls, X.show(inner)[:100]), None, path)
+    xg = inner[2][2]
+    src, view_args = _reshape(xg, cls + ".norm grouped input", path)
+    if src != data:
+        _fail("%s.norm: what is grouped is not the input" % cls, None, path)
+    stats = []
+    for v, nm in ((mean, "mean"), (std, "std")):
+        if not (v[0] == "call" and v[1] == ("attr", xg, nm) and len(v[2]) <= 1):
+            _fail("%s.norm: %s is not X.%s(axes, keepdim=..) of the grouped input" % (cls, nm, nm), None, path)
+        kw = dict(v[3])
+        ax = v[2][0] if v[2] else kw.get("dim", kw.get("axis"))
+        if ax is None:
+            _fail("%s.norm: %s without axes" % (cls, nm), None, path)
+        axes = tuple(x[1] for x in ax[1]) if ax[0] in ("tuple", "list") else (ax[1],)
+        if not all(type(x) is int for x in axes):
+            _fail("%s.norm: reduction axis is not a literal" % cls, None, path)
+        stats.append((axes, kw.get("keepdim", X.FALSE) == X.TRUE, {k_: v_ for k_, v_ in kw.items() if k_ not in ("dim", "axis", "keepdim")}))
+    if stats[0][:2] != stats[1][:2] or stats[0][2] or stats[1][2]:
+        _fail("%s.norm: mean and std are taken over different axes / with other options" % cls, None, path)
+    view = _view_v(view_args, data, groups, names, path, cls + ".norm")
+    back = _view_v(back_args, data, groups, names, path, cls + ".norm")
+    fmt = lambda vw, bk: "{| view := [%s]; reduce_axes := [%s]; keepdim := %s; back := [%s] |}" % ("; ".join(vw), "; ".join("(%d)%%Z" % a_ for a_ in stats[0][0]), "true" if stats[0][1] else "false", "; ".join(bk))
+    spec = fmt(view, back)
     # unnorm
-    un = pg.find_def(tree, cls + ".unnorm", path)
-    ub = pg.strip_doc(un.body)
-    if ast.unparse(ub[0]) != "%s = input_data.shape" % ", ".join(names) or not (isinstance(ub[1], ast.Assign) and ast.unparse(ub[1].targets[0]) == "input_data"):
-        _fail("%s.unnorm: prologue outside subset" % cls, un, path)
-    uview = _view(ub[1].value, names, groups, path, cls + ".unnorm")
-    r = ub[2]
-    if not (isinstance(r, ast.Return) and isinstance(r.value, ast.Call) and ast.unparse(r.value.func) == "(input_data * std + mean).reshape"):
-        _fail("%s.unnorm: expected `return (input_data * std + mean).reshape(...)`" % cls, r, path)
-    uback = _view(r.value, names, groups, path, cls + ".unnorm")
-    uspec = "{| view := [%s]; reduce_axes := [%s]; keepdim := %s; back := [%s] |}" % ("; ".join(uview), "; ".join("(%d)%%Z" % a for a in axes[0]), "true" if keep[0] else "false", "; ".join(uback))
-    # forward: norm -> body -> unnorm with the statistics of norm
-    fw = ast.unparse(pg.find_def(tree, cls + ".forward", path))
-    if ("mean, std = self.norm(" not in fw) or ("self.unnorm(" not in fw) or ("mean, std, self.norm_groups)" not in fw):
-        _fail("%s.forward: norm / unnorm are not paired on the same statistics" % cls, None, path)
+    t, _n = X.run_function(tree, path, cls + ".unnorm")
+    t = X.prune_raises(X.drop_do(t))
+    if t is None or t[0] != "ret":
+        _fail("%s.unnorm: result depends on a branch" % cls, None, path)
+    inner, uback_args = _reshape(t[1], cls + ".unnorm output", path)
+    ok = inner[0] == "bin" and inner[1] == "+" and inner[3] == S("mean") and inner[2][0] == "bin" and inner[2][1] == "*" and inner[2][3] == S("std")
+    if not ok:
+        _fail("%s.unnorm: not X * std + mean: %s" % (cls, X.show(inner)[:100]), None, path)
+    src, uview_args = _reshape(inner[2][2], cls + ".unnorm grouped input", path)
+    if src != data:
+        _fail("%s.unnorm: what is grouped is not the input" % cls, None, path)
+    uspec = fmt(_view_v(uview_args, data, groups, names, path, cls + ".unnorm"), _view_v(uback_args, data, groups, names, path, cls + ".unnorm"))
+    # forward: unnorm is applied with the statistics norm returned in the same call, both with the module's group count
+    hits, stopped = X.watch_calls(tree, path, cls + ".forward", ["norm", "unnorm"], opaque={"norm", "unnorm"})
+    gcount = ("attr", S("self"), "norm_groups")
+    if not hits["norm"] or not hits["unnorm"]:
+        _fail("%s.forward: norm / unnorm not reached (%s)" % (cls, stopped), None, path)
+    for conds, args, kw in hits["unnorm"]:
+        ok = False
+        for _c, nargs, _k in hits["norm"]:
+            call = ("call", ("attr", S("self"), "norm"), nargs, _k)
+            if len(args) == 4 and args[1] == ("sub", call, X.const(1)) and args[2] == ("sub", call, X.const(2)) and args[3] == gcount and nargs[-1] == gcount:
+                ok = True
+        if not ok:
+            _fail("%s.forward: norm / unnorm are not paired on the same statistics: %s" % (cls, [X.show(a_)[:60] for a_ in args]), None, path)
     return spec, uspec
 
 
+MUTATING = {"append", "extend", "update", "add", "clear", "pop", "popitem", "setdefault", "insert", "remove", "discard", "register_buffer"}
+
+
 def _self_stores(repo):
-    """Attribute stores inside forward methods of modules under direct/nn (hidden state carried between calls)."""
+    """Writes to the module's own attributes in the forward pass of modules under direct/nn (hidden state carried between
+    calls): in `forward` / `__call__` and in every method of the class they reach through `self.<method>(..)`, an
+    assignment to `self.x` (also inside a tuple target), to `self.x[..]`, `setattr(self, ..)`, a mutating container
+    method or an in-place tensor method (`name_`) called on `self.x`."""
     found = []
     for path in sorted(glob.glob(os.path.join(repo, "direct/nn/**/*.py"), recursive=True)):
         rel = os.path.relpath(path, repo)
@@ -106,19 +161,55 @@ def _self_stores(repo):
             continue
         tree, _ = pg.parse_file(path)
         for cls in [n for n in ast.walk(tree) if isinstance(n, ast.ClassDef)]:
-            for fn in [n for n in cls.body if isinstance(n, ast.FunctionDef) and n.name in ("forward", "__call__")]:
+            methods = {n.name: n for n in cls.body if isinstance(n, ast.FunctionDef)}
+            todo = [m for m in ("forward", "__call__") if m in methods]
+            seen = set()
+            while todo:
+                nm = todo.pop()
+                if nm in seen:
+                    continue
+                seen.add(nm)
+                fn = methods[nm]
+                selfname = fn.args.args[0].arg if fn.args.args and not any(ast.unparse(d) == "staticmethod" for d in fn.decorator_list) else None
+                if selfname is None:
+                    continue
+
+                def on_self(e):
+                    """e is `self.x`, or `self.x[..]`, `self.x.y` .. rooted at self"""
+                    while isinstance(e, (ast.Attribute, ast.Subscript)):
+                        if isinstance(e, ast.Attribute) and isinstance(e.value, ast.Name) and e.value.id == selfname:
+                            return e.attr
+                        e = e.value
+                    return None
+
                 for node in ast.walk(fn):
                     targets = []
                     if isinstance(node, ast.Assign):
                         targets = node.targets
                     elif isinstance(node, (ast.AugAssign, ast.AnnAssign)):
                         targets = [node.target]
+                    elif isinstance(node, (ast.For, ast.comprehension)):
+                        targets = [node.target]
+                    elif isinstance(node, ast.With):
+                        targets = [i.optional_vars for i in node.items if i.optional_vars is not None]
+                    elif isinstance(node, ast.NamedExpr):
+                        targets = [node.target]
                     for t in targets:
                         for e in ast.walk(t):
-                            if isinstance(e, ast.Attribute) and isinstance(e.ctx, ast.Store) and isinstance(e.value, ast.Name) and e.value.id == "self":
-                                found.append("%s:%s.%s:self.%s" % (rel, cls.name, fn.name, e.attr))
-                    if isinstance(node, ast.Call) and isinstance(node.func, ast.Name) and node.func.id == "setattr" and node.args and ast.unparse(node.args[0]) == "self":
-                        found.append("%s:%s.%s:setattr" % (rel, cls.name, fn.name))
+                            if isinstance(e, (ast.Attribute, ast.Subscript)) and isinstance(e.ctx, ast.Store):
+                                attr = on_self(e)
+                                if attr is not None:
+                                    found.append("%s:%s.%s:self.%s" % (rel, cls.name, nm, attr))
+                    if isinstance(node, ast.Call):
+                        f = node.func
+                        if isinstance(f, ast.Name) and f.id in ("setattr", "delattr") and node.args and ast.unparse(node.args[0]) == selfname:
+                            found.append("%s:%s.%s:setattr" % (rel, cls.name, nm))
+                        if isinstance(f, ast.Attribute) and isinstance(f.value, ast.Name) and f.value.id == selfname and f.attr in methods:
+                            todo.append(f.attr)
+                        if isinstance(f, ast.Attribute) and (f.attr in MUTATING or (f.attr.endswith("_") and not f.attr.startswith("_"))):
+                            attr = on_self(f.value)
+                            if attr is not None:
+                                found.append("%s:%s.%s:self.%s.%s()" % (rel, cls.name, nm, attr, f.attr))
     return sorted(set(found))
 
 
@@ -145,8 +236,8 @@ def generate(ctx):
             if last in ("reduce_operator", "cat", "unsqueeze", "select", "size"):
                 cand = node.args[-1] if last in ("reduce_operator", "cat", "unsqueeze", "size") else node.args[0]
                 dims.append(ast.unparse(cand))
-            elif last in ("complex_multiplication", "range"):
-                continue
+            elif last in ("complex_multiplication", "range", "append", "extend", "len", "enumerate", "zip", "list", "tuple"):
+                continue  # no axis argument
             else:
                 _fail("StandardizationLayer.forward: call outside subset: %s" % fn, node, path)
     bad = sorted(set(d for d in dims if d not in ("self.coil_dim", "self.channel_dim")))
@@ -268,7 +359,9 @@ def oracles(ctx, deep):
                     break
             else:
                 continue
-            j = rng.randrange(n)
+            # the sample compared: never only the first one of the batch (a model that uses sample 0's auxiliary inputs, such
+            # as its scaling factor, for the whole batch is right on sample 0)
+            j = n - 1 if t % 2 == 0 else rng.randrange(n)
             # the sample itself may be of small or large magnitude (raw scanner units)
             b = zoo.make_batch(n, c, h, w, seed=rng.randrange(10**6), scale=rng.choice([1.0, 1.0, 1e-5, 1e3]))
             # companions of extreme magnitude
